@@ -189,7 +189,13 @@ func (s *c15Sink) conv(o *ObjectWithMetadata) [3]uint64 {
 	if o == nil {
 		return [3]uint64{0, 0, 0}
 	}
-	return [3]uint64{uint64(s.b.cids[o.Cid.KeyString()]), o.Offset, o.SectionLength}
+	id := uint64(s.b.cids[o.Cid.KeyString()])
+	// delivering an object means delivering ITS bytes: data that does not hash to the object's CID is another object's
+	// (id 0 = no object of the CAR), at delivery time and later (late-mutation check)
+	if id != 0 && !c15cid(o.ObjectData).Equals(o.Cid) {
+		id = 0
+	}
+	return [3]uint64{id, o.Offset, o.SectionLength}
 }
 
 func (s *c15Sink) record(parent *ObjectWithMetadata, kids []ObjectWithMetadata) {
